@@ -147,7 +147,7 @@ pub fn run_ops(ops: &[Op], nslots: u8, run_seed: u64, verbose: bool, probe_strea
                 for n in s.executed.iter() {
                     *op_hist.entry(n.to_string()).or_insert(0) += 1;
                 }
-                let balance_off = s.balance_off;
+                let balance_off = s.balance_off || s.tolerated_leak;
                 drop(s);
                 if violation.is_none() && !balance_off {
                     let st = arena::stats();
